@@ -159,6 +159,16 @@ def real_roots():
     for f in ("site/index.html", "site/secret.txt", "site2/secret.txt", "secret.txt"):
         with open(os.path.join(base, f), "w") as fh:
             fh.write("x")
+    # symbolic links inside the root (left there by a deploy script, an upload, an unpacked archive): to a file and a directory
+    # outside, relative and absolute, dangling, and one that stays inside.  The function works on names: what it returns for
+    # "link.txt" is <root>/link.txt, never where the link points
+    for link, target in (("site/link.txt", os.path.join(base, "secret.txt")), ("site/rel.txt", "../secret.txt"), ("site/out", os.path.join(base, "site2")),
+                         ("site/relout", "../site2"), ("site/dangling", "/nonexistent/c17/x"), ("site/img/up", ".."), ("site/inside.txt", "index.html"),
+                         ("site/etc", "/etc")):
+        try:
+            os.symlink(target, os.path.join(base, link))
+        except OSError:
+            pass
     return base, [os.path.join(base, "site"), os.path.join(base, "site", "index.html"), os.path.join(base, "site") + "/", os.path.join(base, "site", "img")]
 
 
@@ -168,7 +178,9 @@ def run_random(cfg, mon):
     base, rroots = real_roots()
     try:
         names = ["secret.txt", "../secret.txt", "index.html", "img", "img/../secret.txt", "../site2/secret.txt", "/secret.txt", "", ".", "..",
-                 os.path.join(base, "secret.txt"), os.path.join(base, "site2", "secret.txt"), "a/b", "x"]
+                 os.path.join(base, "secret.txt"), os.path.join(base, "site2", "secret.txt"), "a/b", "x",
+                 "link.txt", "rel.txt", "out", "out/", "relout", "dangling", "img/up", "up", "inside.txt", "etc", "etc/passwd", "out/secret.txt", "./link.txt", "img/../link.txt"]
+        mon.counters.inc("roots_with_symlinks", sum(1 for f in ("link.txt", "rel.txt", "out", "relout", "dangling", "etc") if os.path.islink(os.path.join(base, "site", f))))
         for root in rroots:
             for name in names + sibling_names(root)[:40]:
                 mon.check(root, name, "root-exists-on-disk")
